@@ -97,6 +97,12 @@ CTOR_STEPS = [S(r'auto seq_for_terms = std::make_index_sequence<std::tuple_size_
               Call(r'VX_INIT__(\w+)', 'vx_store_{m1}()', name='R19:member initializer (tuples stored)')]
 F('parser__ctor', r'constexpr parser\(\s*root_nterm_type grammar_root,\s*term_tuple_type terms,\s*nterm_tuple_type nterms,\s*rule_tuple_type&& rules\)', 'void parser__ctor(void)', CTOR_STEPS, ctor=True)
 
+F('create_lexer', r'constexpr void create_lexer\(std::index_sequence<I\.\.\.>\)', 'void create_lexer(void)',
+  [S(r'if constexpr \(generate_lexer\)', 'if (VX_GENERATE_LEXER)', name='R17:if constexpr on generate_lexer'),
+   S(r'regex::dfa_builder<lexer_dfa_size> b\(lexer_sm\);', 'vx_builder_on(VX_LEXER_SM);', name='R3:the one builder, on lexer_sm'),
+   S(r'\(void\(regex::add_term_data_to_dfa\(std::get<I>\(term_tuple\)\.get_data\(\), b, size16_t\(I\)\)\), \.\.\.\);',
+     'for (size_t I = 0; I < P_TERMS; ++I) VX_LEXER_LOOP { vx_add_term_data(vx_get_term(&term_tuple, I), (size16_t)(I)); }', name='R21:pack expansion over I -> loop')])
+
 # the contracts of calculate_rule_* are the ones they are proved against in unit state_analyzer (same text, read from that spec)
 _sa = load_spec(os.path.join(HERE, '..', 'contracts', 'state_analyzer.spec'))
 CALC = ''.join('%s\n%s;\n' % (sig, _sa[n]['contract'].strip()) for n, sig in (
